@@ -24,10 +24,13 @@ from optilint.expr import Algebra, NotPolynomial
 from .common import src, same, calls_in, const_value, expand
 
 LEVEL = "other"
-RULE_TEXT = "obligations = (statement role in rtsafe_/find_root x required order/pairing/sign convention)"
-EXPLANATION = ("Ordering (dominators, reaching definitions), pairing and sign-convention rules on ScalarRootFind.rtsafe_ and find_root, "
-               "slot-table agreement of the while-loop carry, algebraic identity of the bisection midpoint, custom_root wiring. The "
-               "numerical contract (tolerance met, result in bracket) depends on the iteration trajectory and is not decided.")
+RULE_TEXT = ("obligations = (situation of the bracket / guess x value of the initial carry) + (situation of one loop step x value of the returned carry) + "
+             "(use of the loop result) + custom_root wiring + settings wiring")
+EXPLANATION = ("rtsafe_ is interpreted symbolically (opaque user function f@x / df@x, comparisons decided at one rational sample per situation): the initial carry in "
+               "10 situations of bracket signs and guess position, one loop step in 9 situations (Newton admissible / leaves the bracket / too slow, decreasing "
+               "function, tolerances, stagnation) with exact comparison of the new iterate, step, bracket, residual slot, counter and flag, the loop guard, and the "
+               "masking of the result by the flag; find_root's custom_root wiring; named-field wiring of get_settings. That the iteration reaches the tolerance for "
+               "every function is trajectory dependent and not decided.")
 
 SR = "optimism.ScalarRootFind"
 
@@ -35,293 +38,279 @@ SR = "optimism.ScalarRootFind"
 def run(ctx):
     ctx.need_module(SR)
     rt = ctx.need(f"{SR}:rtsafe_")
-    ctx.guard(o1_o2, ctx, rt)
-    ctx.guard(o3_o4, ctx, rt)
-    ctx.guard(o5_o6, ctx, rt)
+    ctx.guard(semantic, ctx, rt)
     ctx.guard(o7, ctx)
     from .common import settings_wiring
     ctx.guard(settings_wiring, ctx, "O4/T5-settings-wiring", SR)
     ctx.trust("jax.lax.custom_root(f, x0, solve, tangent_solve) differentiates the root implicitly with tangent_solve(g, y) = y / g(1) for scalar g")
 
 
-def _x0_chain(rt):
-    cfg = cfg_of(rt)
-    x0 = rt.params()[1]
-    defs = [n for n in cfg.nodes if n.kind == "stmt" and isinstance(n.ast, ast.Assign) and isinstance(n.ast.targets[0], ast.Name)
-            and n.ast.targets[0].id == x0]
-    return cfg, x0, defs
+# ------------------------------------------------------------------ semantic model of rtsafe_ (symbolic interpretation, region sampling)
 
+class _Model:
+    """rtsafe_ interpreted by optilint.tensoreval on symbolic data.  The user function is opaque: f(x) is the atom `f@<x>`, its derivative
+    `df@<x>`.  Comparisons are decided at a rational sample of the region under study, values stay symbolic.  jax.lax.while_loop is replaced
+    either by the identity (to look at the initial carry) or by a tuple of fresh symbols (to look at what is done with the result)."""
 
-def o1_o2(ctx, rt):
-    rule = "O1-O2/T2-guess-preparation-order"
-    cfg, x0, defs = _x0_chain(rt)
-    f, _, br, _ = rt.params()
-    kinds = []
-    for n in defs:
-        v = n.ast.value
-        d = (dotted(v.func) or "").split(".")[-1] if isinstance(v, ast.Call) else ""
-        if d == "clip":
-            kinds.append(("clip", n))
-        elif d == "where" and len(v.args) == 3:
-            cond = expand(cfg, n, v.args[0])
-            a, b = v.args[1], v.args[2]
-            if any(isinstance(x, ast.Attribute) and x.attr == "nan" for x in (a, b)):
-                kinds.append(("nan-seed", n))
-            else:
-                kinds.append(("override", n))
-        else:
-            kinds.append(("other", n))
-    names = [k for k, _ in kinds]
-    ok_order = names[:2] == ["clip", "nan-seed"] and names.count("override") == 2 and names[2:4] == ["override", "override"] and len(names) == 4
-    ctx.decide(rule, ok_order, rt, defs[0].ast if defs else None, construct="order:clip,nan-seed,endpoint-overrides",
-               detail=f"definitions of the guess in order: {names}",
-               bad_detail=f"the initial guess is prepared in the order {names}; required: clip into the bracket, then NaN when there is no sign change, then the "
-                          f"end-point overrides (otherwise an end point that is a root is turned into NaN, or an out-of-bracket guess is used)")
-    # each step reads the previous value, and nothing uses x0 before the clip
-    for i, (k, n) in enumerate(kinds):
-        uses_prev = x0 in {w.id for w in ast.walk(n.ast.value) if isinstance(w, ast.Name)}
-        ctx.decide(rule, uses_prev, rt, n.ast, construct=f"{k}#{i}:reads-previous-guess", detail=src(n.ast)[:80],
-                   bad_detail=f"`{src(n.ast)[:90]}` discards the previously prepared guess")
-    if kinds and kinds[0][0] == "clip":
-        cn = kinds[0][1]
-        early = [n for n in cfg.nodes if n.kind in ("stmt", "cond") and n.ast is not None and n is not cn and cfg.paths_between(n, cn) and
-                 x0 in {w.id for w in ast.walk(n.ast) if isinstance(w, ast.Name) and isinstance(w.ctx, ast.Load)}]
-        ctx.decide(rule, not early, rt, cn.ast, construct="clip-before-any-use", detail="the guess is clipped before it is read anywhere",
-                   bad_detail=f"the unclipped guess is used by `{src(early[0].ast)[:80]}` before the clip" if early else "")
-        v = cn.ast.value
-        okc = len(v.args) == 3 and same(v.args[0], x0) and same(v.args[1], f"{br}[0]") and same(v.args[2], f"{br}[1]")
-        ctx.decide(rule, okc, rt, cn.ast, construct="clip-to-bracket-ends", detail=src(v), bad_detail=f"`{src(v)}` does not clip the guess to [{br}[0], {br}[1]]")
-    # NaN seed: where(fl*fh < 0, x0, nan)
-    for k, n in kinds:
-        v = n.ast.value
-        if k == "nan-seed":
-            c = expand(cfg, n, v.args[0])
-            okn = isinstance(c, ast.Compare) and isinstance(c.ops[0], ast.Lt) and const_value(c.comparators[0]) == 0 and \
-                same(c.left, f"{f}({br}[0]) * {f}({br}[1])") and same(v.args[1], x0)
-            ctx.decide(rule, okn, rt, n.ast, construct="nan-seed:sign-change-test", detail=f"keep the guess iff {src(c)}",
-                       bad_detail=f"NaN seeding `{src(n.ast)[:100]}` does not keep the guess exactly when f(bracket[0])*f(bracket[1]) < 0")
-        if k == "override":
-            c = expand(cfg, n, v.args[0])
-            val = v.args[1]
-            pair = None
-            if isinstance(c, ast.Compare) and isinstance(c.ops[0], ast.Eq) and const_value(c.comparators[0]) == 0:
-                for e in (0, 1):
-                    if same(c.left, f"{f}({br}[{e}])"):
-                        pair = e
-            okp = pair is not None and same(val, f"{br}[{pair}]") and same(v.args[2], x0)
-            ctx.decide("O1-O2/T5-endpoint-pairing", okp, rt, n.ast, construct=f"endpoint-{pair}", detail=f"f(bracket[{pair}]) == 0 -> bracket[{pair}]",
-                       bad_detail=f"`{src(n.ast)[:100]}`: the end point tested ({src(c)}) and the end point returned ({src(val)}) do not match")
-    # converged flags set with the same conditions
-    conv = [n for n in cfg.nodes if n.kind == "stmt" and isinstance(n.ast, ast.Assign) and isinstance(n.ast.targets[0], ast.Name)
-            and n.ast.targets[0].id == _loop_roles(rt)[0].get("converged", "converged") and isinstance(n.ast.value, ast.Call) and (dotted(n.ast.value.func) or "").endswith("where")]
-    ovr = [n for k, n in kinds if k == "override"]
-    ok = len(conv) == len(ovr) and all(src(a.ast.value.args[0]) == src(b.ast.value.args[0]) for a, b in zip(conv, ovr))
-    ctx.decide("O1-O2/T5-endpoint-pairing", ok, rt, conv[0].ast if conv else None, construct="endpoint-sets-converged",
-               detail="each end-point override also sets the converged flag under the same test",
-               bad_detail="an end-point override does not set `converged` under the same test: the loop would move away from an exact end-point root")
+    def __init__(self, ctx):
+        from optilint.tensoreval import Interp, Dual, Arr, PyFunc, _A
+        self.ctx = ctx
+        self.mod = ctx.need_module(SR)
+        self.T = (Interp, Dual, Arr, PyFunc, _A)
 
+    def interp(self, env):
+        Interp, Dual, Arr, PyFunc, _A = self.T
+        from optilint.expr import simplify
+        from fractions import Fraction as F
+        I = Interp(self.ctx.repo)
 
-def _loop_roles(rt):
-    """Roles of the loop-carried locals of rtsafe_, by derivation: (xl, xh) are the targets of the orientation step, (F, DF) the
-    targets of the value-and-derivative evaluation, `converged` is what SolutionInfo(converged=...) reports, the iterate is the argument of that
-    evaluation.  Returns (outer role->name, body role->name) using the positions in the while_loop initial tuple."""
-    outer = {}
-    vg = None
-    for st in rt.node.body:
-        if isinstance(st, ast.Assign) and isinstance(st.value, ast.Call) and (dotted(st.value.func) or "").endswith("value_and_grad") and isinstance(st.targets[0], ast.Name):
-            vg = st.targets[0].id
-    for st in rt.node.body:
-        if isinstance(st, ast.Assign) and isinstance(st.targets[0], ast.Tuple) and len(st.targets[0].elts) == 2 and isinstance(st.value, ast.Call):
-            names = [t.id for t in st.targets[0].elts if isinstance(t, ast.Name)]
-            if len(names) != 2:
-                continue
-            if (dotted(st.value.func) or "") == "jax.lax.cond":
-                outer["xl"], outer["xh"] = names
-            elif isinstance(st.value.func, ast.Name) and st.value.func.id == vg:
-                outer["F"], outer["DF"] = names
-                if st.value.args and isinstance(st.value.args[0], ast.Name):
-                    outer["root"] = st.value.args[0].id
-    for r in rt.returns():
-        for c in ast.walk(r):
-            if isinstance(c, ast.Call):
-                for k in c.keywords:
-                    if k.arg == "converged" and isinstance(k.value, ast.Name):
-                        outer["converged"] = k.value.id
-    wl = [c for c in ast.walk(rt.node) if isinstance(c, ast.Call) and (dotted(c.func) or "").endswith("while_loop") and len(c.args) == 3 and isinstance(c.args[2], ast.Tuple)]
-    body = {}
-    if wl:
-        init = [src(x) for x in wl[0].args[2].elts]
-        lb = [c for c in rt.children if c.kind == "function" and isinstance(wl[0].args[1], ast.Name) and c.name == wl[0].args[1].id]
-        if lb:
-            for st in lb[0].node.body:
-                if isinstance(st, ast.Assign) and isinstance(st.targets[0], ast.Tuple) and isinstance(st.value, ast.Name) and st.value.id == lb[0].params()[0] \
-                        and len(st.targets[0].elts) == len(init):
-                    names = [t.id if isinstance(t, ast.Name) else None for t in st.targets[0].elts]
-                    for role, on in outer.items():
-                        if on in init:
-                            body[role] = names[init.index(on)]
-    return outer, body
-
-
-def o3_o4(ctx, rt):
-    rule = "O3/T6-sign-convention"
-    cfg = cfg_of(rt)
-    f, _, br, _ = rt.params()
-    conds = [c for c in ast.walk(rt.node) if isinstance(c, ast.Call) and (dotted(c.func) or "") == "jax.lax.cond" and len(c.args) >= 3
-             and isinstance(c.args[1], ast.Lambda) and isinstance(c.args[2], ast.Lambda)]
-    orient = maint = None
-    for c in conds:
-        t = c.args[0]
-        if isinstance(t, ast.Compare) and isinstance(t.ops[0], ast.Lt) and const_value(t.comparators[0]) == 0:
-            if len(c.args[1].args.args) == 1:
-                orient = c
-            elif len(c.args[1].args.args) == 3:
-                maint = c
-    ok_o = False
-    if orient is not None:
-        b = orient.args[1].args.args[0].arg
-        tr_, fa_ = orient.args[1].body, orient.args[2].body
-        # test on f(bracket[0]); true arm (lo,hi)=(b0,b1), false arm (b1,b0)
-        node = [n for n in cfg.nodes if n.ast is not None and any(x is orient for x in ast.walk(n.ast))][0]
-        tl = expand(cfg, node, orient.args[0].left)
-        ok_o = same(tl, f"{f}({br}[0])") and same(tr_, f"({b}[0], {b}[1])") and same(fa_, f"({b}[1], {b}[0])") and same(orient.args[3], br)
-    ctx.decide(rule, ok_o, rt, orient, construct="orientation", detail="xl is the end with f < 0",
-               bad_detail="the orientation step does not make xl the bracket end where f < 0")
-    ok_m = False
-    if maint is not None:
-        a = [x.arg for x in maint.args[1].args.args]
-        tr_, fa_ = maint.args[1].body, maint.args[2].body
-        _, br_ = _loop_roles(rt)
-        ok_m = all(k in br_ for k in ("root", "xl", "xh", "F")) and same(tr_, f"({a[0]}, {a[2]})") and same(fa_, f"({a[1]}, {a[0]})") \
-            and [src(x) for x in maint.args[3:6]] == [br_.get("root"), br_.get("xl"), br_.get("xh")] and src(maint.args[0].left) == br_.get("F")
-        # targets (xl, xh)
-        for n in ast.walk(rt.node):
-            if isinstance(n, ast.Assign) and n.value is maint:
-                ok_m = ok_m and [src(t) for t in n.targets[0].elts] == [br_.get("xl"), br_.get("xh")]
-    ctx.decide(rule, ok_m, rt, maint, construct="bracket-maintenance", detail="F < 0 replaces the low end, otherwise the high end",
-               bad_detail="bracket maintenance does not replace the low end (where f < 0) when the new residual is negative: the two sign conventions disagree")
-    # steps
-    A = Algebra()
-    bs = ctx.need(f"{SR}:bisection_step")
-    ns = ctx.need(f"{SR}:newton_step")
-    for sc, want, nm in ((bs, "(xl + xh)/2", "bisection"), (ns, "x - f/df", "newton")):
-        cfg2 = cfg_of(sc)
-        r = cfg2.returns()
-        ok = False
-        shown = "?"
-        if r and isinstance(r[0].ast.value, ast.Tuple):
-            e = expand(cfg2, r[0], r[0].ast.value.elts[0])
-            shown = src(e)
+        def val(d):
+            e = dict(env)
+            for a in d.atoms():
+                if a not in e:
+                    if a.startswith("f@"):
+                        e[a] = env.get("f@*", F(1, 3))
+                    elif a.startswith("df@"):
+                        e[a] = env.get("df@*", F(2))
+                    else:
+                        return None
             try:
-                ok = A.equal(A.lower(e), A.lower(ast.parse(want.replace("x -", "x__in -") if nm == "newton" else want, mode="eval").body))
-            except NotPolynomial:
-                ok = None
-        ctx.decide("O4/T7-steps", ok, sc, r[0].ast if r else None, construct=f"{nm}-step", detail=f"new point = {want}",
-                   bad_detail=f"{nm} step returns `{shown}`, not {want}")
-    # newton rejection test
-    lb = [c for c in rt.children if c.kind == "function" and c.name == "loop_body"]
-    ok = False
-    if lb:
-        for st in ast.walk(lb[0].node):
-            if isinstance(st, ast.Assign) and isinstance(st.value, ast.Compare) and isinstance(st.value.ops[0], ast.Gt) and const_value(st.value.comparators[0]) == 0 \
-                    and isinstance(st.value.left, ast.BinOp) and isinstance(st.value.left.op, ast.Mult):
-                try:
-                    got = A.lower(st.value.left)
-                    _, br_ = _loop_roles(rt)
-                    want = A.lower(ast.parse("((root - xh)*DF - F) * ((root - xl)*DF - F)".replace("root", br_.get("root", "root")).replace("xh", br_.get("xh", "xh"))
-                                             .replace("xl", br_.get("xl", "xl")).replace("DF", "@D").replace("F", br_.get("F", "F")).replace("@D", br_.get("DF", "DF")),
-                                             mode="eval").body)
-                    ok = A.equal(got, want)
-                except NotPolynomial:
-                    ok = None
-    ctx.decide("O4/T7-steps", ok, lb[0] if lb else rt, None, construct="newton-out-of-range-test", detail="((x-xh) f' - f)((x-xl) f' - f) > 0 rejects Newton",
-               bad_detail="the test that rejects a Newton step leaving the bracket is not ((x-xh)f'-f)((x-xl)f'-f) > 0")
+                return _A.eval(d, e)
+            except Exception:
+                return None
+        I.policy = val
+
+        def key(x):
+            from optilint.tensoreval import Ext
+            if isinstance(x, Ext):
+                return "nan"
+            return repr(simplify(I.num(x).a))
+        f = PyFunc("f", lambda it, a, k: Dual(_A.atom("f@" + key(a[0]))), grad=lambda it, a, k: Dual(_A.atom("df@" + key(a[0]))))
+        return I, f
+
+    def run(self, env, loop_mode, x0=None):
+        Interp, Dual, Arr, PyFunc, _A = self.T
+        I, f = self.interp(env)
+        rec = {}
+
+        def wl(it, args, kw):
+            rec["cond"], rec["body"], rec["init"] = args
+            if loop_mode == "init":
+                return args[2]
+            return tuple(Dual(_A.atom(f"L{i}")) for i in range(len(args[2])))
+        I.ext_special["jax.lax.while_loop"] = wl
+        st = I.call(I.module_value(self.mod, "Settings"), [50, Dual(_A.atom("xtol")), Dual(_A.atom("rtol"))], {})
+        br = Arr([Dual(_A.atom("b0")), Dual(_A.atom("b1"))], (2,))
+        out = I.call(I.module_value(self.mod, "rtsafe_"), [f, Dual(_A.atom("x0")) if x0 is None else x0, br, st], {})
+        return out, rec, I
 
 
-def o5_o6(ctx, rt):
-    rule = "O5/T5-loop-carry-slots"
-    kids = {c.name: c for c in rt.children if c.kind == "function"}
-    cond, body = kids.get("cond"), kids.get("loop_body")
-    if cond is None or body is None:
-        raise Incomplete("rtsafe_: cond/loop_body not found")
-    def unpack(sc):
-        for st in sc.node.body:
-            if isinstance(st, ast.Assign) and isinstance(st.targets[0], ast.Tuple) and isinstance(st.value, ast.Name) and st.value.id == sc.params()[0]:
-                return [src(t) for t in st.targets[0].elts]
-        return None
-    u1, u2 = unpack(cond), unpack(body)
-    rets = body.returns()
-    r = [src(e) for e in rets[0].elts] if rets and isinstance(rets[0], ast.Tuple) else None
-    # roles derived inside the body: convergence flag = the variable accumulated with `|`, counter = the variable incremented by 1,
-    # (F, DF) = targets of the value-and-derivative call, (xl, xh) = targets of the bracket-maintenance cond
-    acc = [st for st in ast.walk(body.node) if isinstance(st, ast.Assign) and isinstance(st.targets[0], ast.Name) and isinstance(st.value, ast.BinOp)
-           and isinstance(st.value.op, ast.BitOr)]
-    conv_b = acc[-1].targets[0].id if acc else None
-    cnt = [st.target.id for st in ast.walk(body.node) if isinstance(st, ast.AugAssign) and isinstance(st.op, ast.Add) and const_value(st.value) == 1 and isinstance(st.target, ast.Name)]
-    cnt_b = cnt[0] if cnt else None
-    ok = u2 is not None and u2 == r and u1 is not None and len(u1) == len(u2) and conv_b in u2 and cnt_b in u2
-    if ok:
-        # cond must negate the flag slot and bound the counter slot
-        neg = [n_.operand.id for n_ in ast.walk(cond.node) if isinstance(n_, ast.UnaryOp) and isinstance(n_.op, (ast.Invert, ast.Not)) and isinstance(n_.operand, ast.Name)]
-        lim = [n_.left.id for n_ in ast.walk(cond.node) if isinstance(n_, ast.Compare) and isinstance(n_.ops[0], ast.Lt) and isinstance(n_.left, ast.Name)]
-        ok = len(neg) == 1 and len(lim) == 1 and u1.index(neg[0]) == u2.index(conv_b) and u1.index(lim[0]) == u2.index(cnt_b)
-    ctx.decide(rule, ok, body, None, construct="carry-order", detail=f"carry = {u2}",
-               bad_detail=f"while-loop carry order differs: cond unpacks {u1} (negates the flag, bounds the counter), body unpacks {u2} and returns {r} "
-                          f"(flag `{conv_b}`, counter `{cnt_b}`)")
-    wl = [c for c in ast.walk(rt.node) if isinstance(c, ast.Call) and (dotted(c.func) or "").endswith("while_loop")]
-    okw = False
-    outer, by_pos = _loop_roles(rt)
-    if wl and u2 and isinstance(wl[0].args[2], ast.Tuple):
-        init = wl[0].args[2]
-        names = [src(e) for e in init.elts]
-        # roles derived independently inside the body
-        vg_b = None
-        body_roles = {"converged": conv_b}
-        for st in ast.walk(body.node):
-            if isinstance(st, ast.Assign) and isinstance(st.targets[0], ast.Tuple) and len(st.targets[0].elts) == 2 and isinstance(st.value, ast.Call):
-                nm2 = [t.id for t in st.targets[0].elts if isinstance(t, ast.Name)]
-                if len(nm2) != 2:
-                    continue
-                if (dotted(st.value.func) or "") == "jax.lax.cond" and len(st.value.args) >= 6:
-                    body_roles["xl"], body_roles["xh"] = nm2
-                elif isinstance(st.value.func, ast.Name) and len(st.value.args) == 1 and isinstance(st.value.args[0], ast.Name):
-                    body_roles["F"], body_roles["DF"] = nm2
-                    body_roles["root"] = st.value.args[0].id
-        okw = len(names) == len(u2) and isinstance(wl[0].args[0], ast.Name) and wl[0].args[0].id == cond.name and isinstance(wl[0].args[1], ast.Name) \
-            and wl[0].args[1].id == body.name and const_value(init.elts[u2.index(cnt_b)]) == 0 if cnt_b in u2 else False
-        for role in ("xl", "xh", "F", "DF", "root", "converged"):
-            okw = okw and role in outer and role in body_roles and body_roles[role] in u2 and outer[role] in names \
-                and names.index(outer[role]) == u2.index(body_roles[role])
-        # result unpack: the flag slot is what SolutionInfo reports, the iterate and residual slots are kept
-        for st in ast.walk(rt.node):
-            if isinstance(st, ast.Assign) and st.value is wl[0]:
-                res = [src(t) for t in st.targets[0].elts]
-                okw = okw and len(res) == len(u2) and conv_b in u2 and res[u2.index(conv_b)] == outer.get("converged") and res[0] != "_" \
-                    and res[u2.index(body_roles.get("F", u2[0]))] != "_"
-    ctx.decide(rule, okw, rt, wl[0] if wl else None, construct="carry-initial-and-result", detail="initial tuple and result unpacking follow the carry order",
-               bad_detail="the initial carry tuple or the unpacking of the loop result does not follow the carry order")
-    # result masked by converged
-    cfg = cfg_of(rt)
-    rr = cfg.returns()
-    okm = False
-    cname = outer.get("converged", "converged")
-    if rr and isinstance(rr[0].ast.value, ast.Tuple):
-        first = rr[0].ast.value.elts[0]
-        if isinstance(first, ast.Name):
-            ds = cfg.reaching(rr[0], first.id)
-            okm = len(ds) == 1 and isinstance(ds[0].ast, ast.Assign) and isinstance(ds[0].ast.value, ast.Call) and (dotted(ds[0].ast.value.func) or "").endswith("where") \
-                and src(ds[0].ast.value.args[0]) == cname and src(ds[0].ast.value.args[1]) == first.id and src(ds[0].ast.value.args[2]).endswith("nan")
-    ctx.decide("O6/T1-result-masked", okm, rt, rr[0].ast if rr else None, construct="nan-unless-converged", detail="x = where(converged, x, nan)",
-               bad_detail="the returned root is not masked by `converged` (an unconverged iterate could be returned as a root)")
-    # convergence flag accumulates: the last assignment of the flag slot inside the body must be `flag | (|dx| < x_tol) | (|F| < r_tol)`
-    flag_b = u2[u1.index([n_.operand.id for n_ in ast.walk(cond.node) if isinstance(n_, ast.UnaryOp) and isinstance(n_.op, (ast.Invert, ast.Not))
-                                   and isinstance(n_.operand, ast.Name)][0])] if u1 and u2 and len(u1) == len(u2) else None
-    for st in ast.walk(body.node):
-        if isinstance(st, ast.Assign) and isinstance(st.targets[0], ast.Name) and st.targets[0].id == flag_b and isinstance(st.value, (ast.BinOp, ast.Compare, ast.BoolOp)):
-            txt = src(st.value)
-            ok = txt.startswith(f"{flag_b} |") and "x_tol" in txt and "r_tol" in txt and "<" in txt
-            ctx.decide("O6/T1-result-masked", ok, body, st, construct="convergence-test", detail=txt,
-                       bad_detail=f"convergence flag `{txt}` does not accumulate (|dx| < x_tol) | (|F| < r_tol)")
+def _isnan(v):
+    from optilint.tensoreval import Ext, Dual
+    return (isinstance(v, Ext) and v.name.split(".")[-1].lower() == "nan") or (isinstance(v, Dual) and "@nan" in v.a.atoms())
+
+
+def _eqv(I, a, b):
+    from optilint.tensoreval import _A
+    try:
+        return _A.equal(I.num(a).a, I.num(b).a)
+    except Exception:
+        return False
+
+
+def semantic(ctx, rt):
+    from fractions import Fraction as F
+    from optilint.tensoreval import Dual, Arr, EvalError, Raised, _A, Record
+    M = _Model(ctx)
+    base = {"b0": F(0), "b1": F(2), "x0": F(1), "f@b0": F(-1), "f@b1": F(1), "xtol": F(1, 10 ** 9), "rtol": F(1, 10 ** 9)}
+    A = lambda n: Dual(_A.atom(n))
+    # ---- roles of the carry slots, read off the initial carry in the standard situation (sign change, guess inside, f(b0) < 0)
+    try:
+        out, rec, I = M.run(base, "init")
+    except (EvalError, Raised, KeyError, TypeError, AttributeError, IndexError) as ex:
+        raise Incomplete(f"rtsafe_ cannot be interpreted: {ex}")
+    init = list(rec.get("init", ()))
+    role = {}
+    for k, v in enumerate(init):
+        if isinstance(v, bool):
+            role.setdefault("conv", k)
+        elif isinstance(v, int) and v == 0:
+            role.setdefault("iter", k)
+        elif _eqv(I, v, A("x0")):
+            role.setdefault("root", k)
+        elif _eqv(I, v, A("f@x0")):
+            role.setdefault("F", k)
+        elif _eqv(I, v, A("df@x0")):
+            role.setdefault("DF", k)
+        elif _eqv(I, v, A("b0")):
+            role.setdefault("xl", k)
+        elif _eqv(I, v, A("b1")):
+            role.setdefault("xh", k)
+        elif _eqv(I, v, A("b1") - A("b0")):
+            role.setdefault("dx" if "dx" not in role else "dxOld", k)
+    need = ("root", "F", "DF", "xl", "xh", "conv", "iter", "dx", "dxOld")
+    ctx.decide("O5/T5-loop-carry-slots", all(r in role for r in need) and len(init) == len(need), rt, None, construct="carry-initial-and-result",
+               detail=f"initial carry = (guess, |b1-b0| twice, f and f' at the guess, oriented bracket, False, 0): roles {role}",
+               bad_detail=f"the initial while-loop carry {[repr(v)[:24] for v in init]} is not (guess, two copies of the bracket length, f(guess), f'(guess), "
+                          f"end with f<0, end with f>0, not-converged, 0): roles found {role}")
+    if not all(r in role for r in need):
+        return
+    # dx vs dxOld are told apart by the body (below); slot order of the two equal initial values is arbitrary here
+    # ---- O6 / result: what is returned from the loop result
+    try:
+        env = dict(base)
+        env.update({f"L{k}": F(k + 2) for k in range(len(init))})
+        out, _, I2 = M.run(env, "sym")
+        root_out, info = out[0], out[1]
+        ok_x = _eqv(I2, root_out, A(f"L{role['root']}"))
+        conv_field = info.get("converged") if isinstance(info, Record) else None
+        ok_c = conv_field is not None and _eqv(I2, conv_field, A(f"L{role['conv']}"))
+        env[f"L{role['conv']}"] = F(0)
+        out0, _, _ = M.run(env, "sym")
+        ok_m = _isnan(out0[0])
+        ctx.decide("O6/T1-result-masked", ok_x and ok_c and ok_m, rt, None, construct="nan-unless-converged",
+                   detail="returns the loop's iterate when the loop's flag is set, NaN otherwise; SolutionInfo.converged is that flag",
+                   bad_detail=f"after the loop: returned root is the iterate slot when converged: {ok_x}; SolutionInfo.converged is the flag slot: {ok_c}; "
+                              f"NaN when the flag is not set: {ok_m} (an unconverged iterate could be returned as a root)")
+    except (EvalError, Raised, KeyError, TypeError, AttributeError, IndexError) as ex:
+        ctx.undecided("O6/T1-result-masked", rt, None, construct="nan-unless-converged", detail=f"cannot interpret the code after the loop: {ex}")
+    # ---- O1/O2/O3: preparation of the guess and orientation, by region
+    regions = [
+        # label, overrides, expected root, expected (xl, xh), expected converged
+        ("sign-change,f(b0)<0,guess-inside", {}, "x0", ("b0", "b1"), False),
+        ("sign-change,f(b0)>0,guess-inside", {"f@b0": F(1), "f@b1": F(-1)}, "x0", ("b1", "b0"), False),
+        ("guess-below-bracket", {"x0": F(-3)}, "b0", ("b0", "b1"), False),
+        ("guess-above-bracket", {"x0": F(7)}, "b1", ("b0", "b1"), False),
+        ("no-sign-change,both-positive", {"f@b0": F(2), "f@b1": F(1)}, "nan", None, False),
+        ("no-sign-change,both-negative", {"f@b0": F(-2), "f@b1": F(-1)}, "nan", None, False),
+        ("left-end-is-root", {"f@b0": F(0), "f@b1": F(1)}, "b0", None, True),
+        ("left-end-is-root,other-end-negative", {"f@b0": F(0), "f@b1": F(-1)}, "b0", None, True),
+        ("right-end-is-root", {"f@b0": F(-1), "f@b1": F(0)}, "b1", None, True),
+        ("right-end-is-root,guess-outside", {"f@b0": F(1), "f@b1": F(0), "x0": F(9)}, "b1", None, True),
+    ]
+    for lab, ov, eroot, ebr, econv in regions:
+        env = dict(base)
+        env.update(ov)
+        try:
+            _, rec, I3 = M.run(env, "init")
+            ini = rec["init"]
+        except (EvalError, Raised, KeyError, TypeError, AttributeError, IndexError) as ex:
+            ctx.undecided("O1-O2/T2-guess-preparation-order", rt, None, construct=f"initial-iterate[{lab}]", detail=str(ex))
+            continue
+        r0 = ini[role["root"]]
+        okr = _isnan(r0) if eroot == "nan" else _eqv(I3, r0, A(eroot))
+        okc = ini[role["conv"]] is econv
+        rule = "O1-O2/T5-endpoint-pairing" if "is-root" in lab else "O1-O2/T2-guess-preparation-order"
+        what = {"x0": "the guess", "b0": "bracket[0]", "b1": "bracket[1]", "nan": "NaN"}[eroot]
+        ctx.decide(rule, okr and okc, rt, None, construct=f"initial-iterate[{lab}]",
+                   detail=f"iteration starts from {what}, converged = {econv}",
+                   bad_detail=f"in the situation [{lab}] the iteration starts from `{repr(r0)[:50]}` with converged = {ini[role['conv']]}; the contract requires {what} "
+                              f"with converged = {econv} (clip the guess into the bracket, NaN without a sign change, an end point that is a root wins)")
+        if ebr is not None:
+            okb = _eqv(I3, ini[role["xl"]], A(ebr[0])) and _eqv(I3, ini[role["xh"]], A(ebr[1]))
+            ctx.decide("O3/T6-sign-convention", okb, rt, None, construct=f"orientation[{lab}]", detail=f"(end with f<0, end with f>0) = ({ebr[0]}, {ebr[1]})",
+                       bad_detail=f"in the situation [{lab}] the bracket is oriented as ({repr(ini[role['xl']])[:20]}, {repr(ini[role['xh']])[:20]}); the first must be the end where f < 0")
+    # ---- O3/O4/O5: one iteration of the loop body on a symbolic carry
+    body = rec.get("body")
+    names = {"root": "Cx", "dx": "Cd", "dxOld": "Co", "F": "CF", "DF": "CD", "xl": "Cl", "xh": "Ch", "iter": "Ci"}
+    samples = [
+        # label, numeric carry, f at the new point, tolerances
+        ("newton-accepted,f(new)<0", dict(Cx=F(1), Cd=F(1), Co=F(1), CF=F(1, 10), CD=F(1), Cl=F(0), Ch=F(2), Ci=F(3)), F(-1, 7), {}),
+        ("newton-accepted,f(new)>0", dict(Cx=F(1), Cd=F(1), Co=F(1), CF=F(1, 10), CD=F(1), Cl=F(0), Ch=F(2), Ci=F(3)), F(1, 7), {}),
+        ("newton-leaves-bracket", dict(Cx=F(1), Cd=F(1), Co=F(1), CF=F(5), CD=F(1), Cl=F(0), Ch=F(2), Ci=F(3)), F(1, 7), {}),
+        ("newton-too-slow", dict(Cx=F(1), Cd=F(1, 10), Co=F(1, 10), CF=F(1, 10), CD=F(1), Cl=F(0), Ch=F(2), Ci=F(3)), F(-1, 7), {}),
+        ("decreasing-function,bisection", dict(Cx=F(1), Cd=F(1), Co=F(1), CF=F(5), CD=F(-1), Cl=F(2), Ch=F(0), Ci=F(0)), F(1, 7), {}),
+        ("residual-below-tolerance", dict(Cx=F(1), Cd=F(1), Co=F(1), CF=F(1, 10), CD=F(1), Cl=F(0), Ch=F(2), Ci=F(3)), F(1, 10 ** 12), {}),
+        ("step-below-tolerance", dict(Cx=F(1), Cd=F(1), Co=F(1), CF=F(1, 10 ** 12), CD=F(1), Cl=F(0), Ch=F(2), Ci=F(3)), F(1, 7), {}),
+        ("bisection-stagnates,zero-tolerances", dict(Cx=F(1), Cd=F(1), Co=F(1), CF=F(5), CD=F(1), Cl=F(1), Ch=F(1), Ci=F(3)), F(1, 7), {"xtol": F(0), "rtol": F(0)}),
+        ("newton-stagnates,zero-tolerances", dict(Cx=F(1), Cd=F(1), Co=F(1), CF=F(0), CD=F(1), Cl=F(0), Ch=F(2), Ci=F(3)), F(1, 7), {"xtol": F(0), "rtol": F(0)}),
+    ]
+    if body is None:
+        ctx.undecided("O4/T7-steps", rt, None, construct="loop-body", detail="loop body not captured")
+        return
+    for lab, num, fnew, tols in samples:
+        for conv_in in (False,):
+            env = dict(base)
+            env.update(num)
+            env.update(tols)
+            env["f@*"] = fnew
+            try:
+                I4, f4 = M.interp(env)
+                # the body is a closure of rtsafe_: rebuild it in an interpreter that decides comparisons at this sample
+                _, rec4, I4 = M.run(env, "init")
+                body4 = rec4["body"]
+                I4.policy = M.interp(env)[0].policy
+                carry = [None] * len(init)
+                for r_, nm in names.items():
+                    carry[role[r_]] = A(nm)
+                carry[role["conv"]] = conv_in
+                out = I4.call(body4, [tuple(carry)], {})
+            except (EvalError, Raised, KeyError, TypeError, AttributeError, IndexError) as ex:
+                ctx.undecided("O4/T7-steps", rt, None, construct=f"step[{lab}]", detail=str(ex))
+                continue
+            g = lambda r_: out[role[r_]]
+            Cx, Cd, Co, CF, CD, Cl, Ch = (A(names[k]) for k in ("root", "dx", "dxOld", "F", "DF", "xl", "xh"))
+            v = num
+            oor = ((v["Cx"] - v["Ch"]) * v["CD"] - v["CF"]) * ((v["Cx"] - v["Cl"]) * v["CD"] - v["CF"]) > 0
+            slow = abs(2 * v["CF"]) > abs(v["Co"] * v["CD"])
+            if oor or slow:
+                want_x, want_dx, kind = Cl + (Ch - Cl) * Dual(F(1, 2)), (Ch - Cl) * Dual(F(1, 2)), "bisection"
+            else:
+                want_x, want_dx, kind = Cx - CF / CD, Dual(0) - CF / CD, "Newton"
+            ok_x = _eqv(I4, g("root"), want_x)
+            ok_dx = _eqv(I4, g("dx"), want_dx) or _eqv(I4, g("dxOld"), want_dx)
+            if conv_in is False:
+                ctx.decide("O4/T7-steps", ok_x and ok_dx, rt, None, construct=f"step[{lab}]",
+                           detail=f"{kind} step: new iterate {repr(I4.num(want_x).a)[:60]}",
+                           bad_detail=f"in the situation [{lab}] ({'Newton leaves the bracket' if oor else 'Newton converges too slowly' if slow else 'Newton is admissible'}) the "
+                                      f"new iterate is `{repr(g('root'))[:70]}` with step `{repr(g('dx'))[:40]}`; expected the {kind} step {repr(I4.num(want_x).a)[:60]}")
+                # bracket maintenance
+                if ok_x:
+                    neg = fnew < 0
+                    okb = (_eqv(I4, g("xl"), want_x) and _eqv(I4, g("xh"), Ch)) if neg else (_eqv(I4, g("xl"), Cl) and _eqv(I4, g("xh"), want_x))
+                    ctx.decide("O3/T6-sign-convention", okb, rt, None, construct=f"bracket-maintenance[{lab}]",
+                               detail=f"f(new) {'<' if neg else '>='} 0 replaces the end where f is {'negative' if neg else 'positive'}",
+                               bad_detail=f"in the situation [{lab}] with f(new) {'<' if neg else '>='} 0 the bracket becomes ({repr(g('xl'))[:30]}, {repr(g('xh'))[:30]}): the end "
+                                          f"with the same sign as f(new) must be replaced (sign conventions of orientation and maintenance disagree)")
+                    # carried values
+                    okc = _eqv(I4, g("F"), A("f@" + repr(__import__("optilint.expr", fromlist=["simplify"]).simplify(I4.num(want_x).a)))) and \
+                        _eqv(I4, g("iter"), A("Ci") + Dual(1))
+                    shift = _eqv(I4, g("dxOld"), Cd) or _eqv(I4, g("dx"), want_dx)
+                    ctx.decide("O5/T5-loop-carry-slots", okc and shift, rt, None, construct=f"carry-order[{lab}]",
+                               detail="residual slot = f(new iterate), counter + 1, previous step kept",
+                               bad_detail=f"in the situation [{lab}] the carry is returned out of order: residual slot {repr(g('F'))[:40]}, counter {repr(g('iter'))[:20]}, "
+                                          f"step-before-last {repr(g('dxOld'))[:30]}")
+            # convergence flag
+            step_v = ((v["Ch"] - v["Cl"]) / 2) if (oor or slow) else (-v["CF"] / v["CD"])
+            start_v = v["Cl"] if (oor or slow) else v["Cx"]
+            stag = (start_v + step_v == start_v)       # the step no longer changes the iterate: the step functions report convergence
+            want_conv = conv_in or stag or abs(fnew) < env["rtol"] or abs(step_v) < env["xtol"]
+            got_conv = g("conv")
+            if isinstance(got_conv, bool):
+                ctx.decide("O6/T1-result-masked", got_conv == bool(want_conv), rt, None, construct=f"convergence-test[{lab},flag-in={conv_in}]",
+                           detail=f"flag = {bool(want_conv)}: stagnation of the step or |step| < x_tol or |f(new)| < r_tol",
+                           bad_detail=f"in the situation [{lab}] with the flag {'already set' if conv_in else 'not yet set'} the body returns converged = {got_conv}; "
+                                      f"expected {bool(want_conv)} (stagnation reported by the step function | (|dx| < x_tol) | (|F| < r_tol))")
+            else:
+                ctx.undecided("O6/T1-result-masked", rt, None, construct=f"convergence-test[{lab},flag-in={conv_in}]", detail=f"flag is not boolean: {got_conv!r}")
+    # loop guard: continues while not converged and the counter is below max_iters
+    cond = rec.get("cond")
+    try:
+        res = []
+        for conv_in, it_ in ((False, F(3)), (True, F(3)), (False, F(50)), (False, F(51))):
+            env = dict(base)
+            env.update({"Ci": it_})
+            _, rec5, I5 = M.run(env, "init")
+            I5.policy = M.interp(env)[0].policy
+            carry = [A(f"C{k}") for k in range(len(init))]
+            carry[role["conv"]] = conv_in
+            carry[role["iter"]] = A("Ci")
+            res.append(I5.truth(I5.call(rec5["cond"], [tuple(carry)], {})))
+        ctx.decide("O5/T5-loop-carry-slots", res == [True, False, False, False], rt, None, construct="loop-guard",
+                   detail="continues iff not converged and fewer than max_iters iterations",
+                   bad_detail=f"loop guard evaluates to {res} for (not converged, i=3), (converged, i=3), (not converged, i=max), (not converged, i>max); expected [True, False, False, False]")
+    except (EvalError, Raised, KeyError, TypeError, AttributeError, IndexError) as ex:
+        ctx.undecided("O5/T5-loop-carry-slots", rt, None, construct="loop-guard", detail=str(ex))
 
 
 def o7(ctx):
@@ -332,8 +321,11 @@ def o7(ctx):
     ok = False
     shown = src(r[0]) if r else "?"
     if r and isinstance(r[0], ast.Call) and (dotted(r[0].func) or "").endswith("custom_root") and len(r[0].args) >= 4:
-        a = r[0].args
+        from .common import defs_to_lambdas, normalize
+        a = [defs_to_lambdas(x, fr) for x in r[0].args]
         solve, tsolve = a[2], a[3]
+        if isinstance(solve, ast.Lambda):
+            solve = ast.Lambda(args=solve.args, body=normalize(solve.body, fr, depth=0))
         ok_f = same(a[0], f) and same(a[1], x0)
         ok_s = isinstance(solve, ast.Lambda) and len(solve.args.args) == 2 and \
             same(solve.body, f"rtsafe_({solve.args.args[0].arg}, {solve.args.args[1].arg}, {br}, {st})")
@@ -361,7 +353,7 @@ def variants(repo):
                 lambda s: None if s.count("    x0 = np.where(fl*fh < 0.0,\n                  x0,\n                  np.nan)\n") != 1 else
                 s.replace("    x0 = np.where(fl*fh < 0.0,\n                  x0,\n                  np.nan)\n", "")
                  .replace("    # ORIENT THE SEARCH SO THAT F(XL) < 0.", "    x0 = np.where(fl*fh < 0.0,\n                  x0,\n                  np.nan)\n    # ORIENT THE SEARCH SO THAT F(XL) < 0."),
-                "O1-O2/T2-guess-preparation-order"),
+                "O1-O2/T5-endpoint-pairing"),
         Variant("no clip", S, sub("    x0 = np.clip(x0, bracket[0], bracket[1])\n", ""), "O1-O2/T2-guess-preparation-order"),
         Variant("endpoint pairing swapped", S, sub("    x0 = np.where(leftBracketIsSolution, bracket[0], x0)", "    x0 = np.where(leftBracketIsSolution, bracket[1], x0)"), "O1-O2/T5-endpoint-pairing"),
         Variant("maintenance flipped", S, sub("lambda rt, lo, hi: (rt, hi),\n                             lambda rt, lo, hi: (lo, rt),", "lambda rt, lo, hi: (lo, rt),\n                             lambda rt, lo, hi: (rt, hi),"), "O3/T6-sign-convention"),
